@@ -43,3 +43,44 @@ fn vf_out_delete_all() {
     }
     println!("VF-SUMMARY test=out_delete_all checked={} nontrivial={} bad={}", checked, checked, bad);
 }
+
+// C14: while another invocation holds the lock (here: a socket bound to the lock address), each of the four mutating commands exits
+// non-zero WITHOUT having executed or modified anything: no executable started, checkpoint and recorded output untouched.
+#[test]
+fn vf_contenders_do_nothing() {
+    let td = tempfile::tempdir().unwrap();
+    let proj = td.path().join("proj");
+    std::fs::create_dir_all(proj.join("t1/monorail/cmd")).unwrap();
+    let marker = td.path().join("started");
+    let script = proj.join("t1/monorail/cmd/hello.sh");
+    std::fs::write(&script, format!("#!/bin/sh\ntouch '{}'\n", marker.display())).unwrap();
+    let mut perm = std::fs::metadata(&script).unwrap().permissions(); perm.set_mode(0o755); std::fs::set_permissions(&script, perm).unwrap();
+    let g = |args: &[&str]| { let o = Command::new("git").current_dir(&proj).args(args).env("GIT_CONFIG_GLOBAL", "/dev/null").env("GIT_CONFIG_SYSTEM", "/dev/null").output().expect("git"); assert!(o.status.success(), "git {:?}", args); };
+    std::fs::write(proj.join(".gitignore"), "monorail-out/\n").unwrap();
+    g(&["init", "-q", "."]); g(&["config", "user.email", "a@b"]); g(&["config", "user.name", "n"]);
+    let (lp, kp0) = (free_port(), free_port()); let kp = if kp0 == lp { kp0 + 1 } else { kp0 };
+    let cfg = proj.join("Monorail.json");
+    std::fs::write(&cfg, format!("{{\"targets\":[{{\"path\":\"t1\"}}],\"server\":{{\"log\":{{\"port\":{}}},\"lock\":{{\"port\":{},\"bind_timeout_ms\":300}}}}}}", lp, kp)).unwrap();
+    g(&["add", "-A"]); g(&["commit", "-q", "-m", "c1"]);
+    let mono = |args: &[&str]| Command::new(BIN).current_dir(&proj).arg("-f").arg(&cfg).args(args).output().unwrap();
+    // state worth protecting: a checkpoint and one recorded run
+    assert!(mono(&["checkpoint", "update"]).status.success(), "finder set-up: checkpoint update");
+    assert!(mono(&["run", "-c", "hello", "-t", "t1"]).status.success(), "finder set-up: run");
+    let _ = std::fs::remove_file(&marker);
+    let snapshot = || -> Vec<(String, Vec<u8>)> { let mut v = vec![]; let mut st = vec![proj.join("monorail-out")]; while let Some(d) = st.pop() { if let Ok(rd) = std::fs::read_dir(&d) { for e in rd.flatten() { let p = e.path(); if p.is_dir() { st.push(p); } else { v.push((p.display().to_string(), std::fs::read(&p).unwrap_or_default())); } } } } v.sort(); v };
+    let before = snapshot();
+    let holder = std::net::TcpListener::bind(("127.0.0.1", kp)).expect("finder set-up: the lock address must be free");
+    let (mut checked, mut bad) = (0u64, 0u64);
+    for args in [vec!["run", "-c", "hello", "-t", "t1"], vec!["checkpoint", "update"], vec!["checkpoint", "delete"], vec!["out", "delete", "--all"]] {
+        checked += 1;
+        let o = mono(&args);
+        let after = snapshot();
+        let mut problems = vec![];
+        if o.status.success() { problems.push("it exits 0".to_string()); }
+        if marker.exists() { problems.push("it started the target's executable".to_string()); let _ = std::fs::remove_file(&marker); }
+        if after != before { problems.push(format!("the output directory changed ({} files before, {} after)", before.len(), after.len())); }
+        if !problems.is_empty() { bad += 1; println!("VF-FAIL `monorail {}` while another invocation holds the lock :: {}; a contender must exit non-zero having executed and modified nothing (C14)", args.join(" "), problems.join("; ")); break; }
+    }
+    drop(holder);
+    println!("VF-SUMMARY test=contenders_do_nothing checked={} nontrivial={} bad={}", checked, checked, bad);
+}
